@@ -552,7 +552,7 @@ Section Proofs.
   (* what the checker's loop verifies: every route that is CLOSED by a depot visit (all but the last segment) is within
      the skill of the technician the code indexes for it *)
   Definition seg_ok (i : svrp_inst) (k : nat) (r : list nat) : Prop :=
-    exists q, tidx fx (sm_of i) k = Some q /\ Forall (fun j => sskill i j <= tskill i q) r.
+    exists q, tidx fx (sm_of i) k = Some q /\ ((k < sm_of i)%nat \/ r = []) /\ Forall (fun j => sskill i j <= tskill i q) r.
   Fixpoint closed_ok (i : svrp_inst) (k : nat) (rs : list (list nat)) : Prop :=
     match rs with
     | [] => True
@@ -573,6 +573,9 @@ Section Proofs.
     - apply H, G. apply in_rev in Hx. exact Hx.
   Qed.
 
+  Lemma rev_nil_iff {A} (l : list A) : rev l = [] <-> l = [].
+  Proof. split; [intros H; rewrite <- (rev_involutive l), H; reflexivity | intros ->; reflexivity]. Qed.
+
   Lemma skill_loop_spec i acts : forall k seg,
     skill_loop fx i k seg acts = true <-> closed_ok i k (routes_aux acts seg).
   Proof.
@@ -580,10 +583,13 @@ Section Proofs.
     - cbn [closed_ok]. tauto.
     - destruct (Nat.eqb a 0).
       + destruct (routes_aux_cons r []) as (h & t & Eh). cbn [closed_ok]. rewrite Eh. rewrite <- Eh. unfold seg_ok.
+        assert (Hg : (Nat.ltb k (sm_of i) || match seg with [] => true | _ :: _ => false end)%bool = true <->
+                     ((k < sm_of i)%nat \/ rev seg = [])).
+        { rewrite orb_true_iff, Nat.ltb_lt, rev_nil_iff. destruct seg; [tauto|]. split; [intros [H|H]; [left; exact H | discriminate] | intros [H|H]; [left; exact H | discriminate]]. }
         destruct (tidx fx (sm_of i) k) as [q|].
-        * rewrite andb_true_iff, IH. rewrite (forallb_Forall_rev _ (fun j => sskill i j <= tskill i q)) by (intros x; apply Z.leb_le).
-          split; [intros [H1 H2]; split; [exists q; split; [reflexivity | exact H1] | exact H2]|].
-          intros [(q' & Hq & H1) H2]. injection Hq as <-. split; assumption.
+        * rewrite !andb_true_iff, IH, Hg. rewrite (forallb_Forall_rev _ (fun j => sskill i j <= tskill i q)) by (intros x; apply Z.leb_le).
+          split; [intros [[H0 H1] H2]; split; [exists q; split; [reflexivity | split; assumption] | exact H2]|].
+          intros [(q' & Hq & H0 & H1) H2]. injection Hq as <-. split; [split|]; assumption.
         * split; [discriminate | intros [(q' & Hq & _) _]; discriminate].
       + apply IH.
   Qed.
@@ -614,8 +620,9 @@ Section Proofs.
     intros (Hm & _) rs. induction rs as [|r rest IH]; intros k Hok Hh; [exact I|]. cbn [closed_ok].
     destruct rest as [|r' rest]; [exact I|]. destruct Hok as [[Hk Hf] Hrest]. split.
     - unfold seg_ok. rewrite tidx_lt; [| exact Hm | destruct Hh as [H|H]; [left; exact H | right; cbn [length] in H; lia]].
-      eexists. split; [reflexivity|]. destruct r as [|x r]; [constructor|].
-      specialize (Hk ltac:(discriminate)). replace (if fx then Nat.min k (sm_of i - 1) else k) with k by (destruct fx; lia). exact Hf.
+      eexists. split; [reflexivity|]. destruct r as [|x r]; [split; [right; reflexivity | constructor]|].
+      specialize (Hk ltac:(discriminate)). split; [left; exact Hk|].
+      replace (if fx then Nat.min k (sm_of i - 1) else k) with k by (destruct fx; lia). exact Hf.
     - apply IH; [exact Hrest | destruct Hh as [H|H]; [left; exact H | right; cbn [length] in *; lia]].
   Qed.
 
@@ -641,39 +648,45 @@ Section Proofs.
     - replace (k + S q)%nat with (S k + q)%nat by lia. apply (IH (S k) Hrest q r Hq). cbn [length] in *. lia.
   Qed.
 
-  (* accepted => every customer exactly once, only existing nodes, and every route CLOSED by a depot visit within the
-     skill of its technician.  (Nothing is said about the customers after the last depot visit: see the refutation.) *)
+  (* what the loop verifies about a closed route is exactly the specification's [route_ok]: a non-empty route belongs to
+     an existing technician (k < m) and is within THAT technician's skill (below m the clamp changes nothing) *)
+  Lemma seg_ok_route_ok i k r : seg_ok i k r -> route_ok i k r.
+  Proof.
+    intros (q & Hq & Hk & Hf). destruct r as [|x r]; [apply route_ok_nil|].
+    destruct Hk as [Hk|Hk]; [|discriminate]. split; [intros _; exact Hk|].
+    unfold tidx in Hq. destruct fx.
+    - destruct (Nat.ltb 0 (sm_of i)); [|discriminate]. injection Hq as <-. replace (Nat.min k (sm_of i - 1)) with k in Hf by lia. exact Hf.
+    - destruct (Nat.ltb k (sm_of i)); [|discriminate]. injection Hq as <-. exact Hf.
+  Qed.
+
+  (* accepted => every customer exactly once, only existing nodes, and every route CLOSED by a depot visit satisfies the
+     specification: if it is non-empty its number is below the number of technicians and every customer on it is
+     within that technician's skill.  (Nothing is said about the customers after the last depot visit: see the
+     refutation.) *)
   Theorem svrp_checker_sound_closed i acts :
     svrp_checker fx i acts = true ->
     (forall j, (1 <= j <= sn_of i)%nat -> occ j acts = 1%nat) /\
     (forall a, In a acts -> (a <= sn_of i)%nat) /\
-    (forall q r, nth_error (routes acts) q = Some r -> (S q < length (routes acts))%nat ->
-       exists t, tidx fx (sm_of i) q = Some t /\ Forall (fun j => sskill i j <= tskill i t) r).
+    (forall q r, nth_error (routes acts) q = Some r -> (S q < length (routes acts))%nat -> route_ok i q r).
   Proof.
     intros H. apply svrp_checker_iff in H as (_ & Hocc & Hrng & Hc). split; [exact Hocc|]. split; [exact Hrng|].
-    intros q r Hq Hl. exact (closed_ok_nth i _ 0%nat Hc q r Hq Hl).
+    intros q r Hq Hl. apply seg_ok_route_ok. exact (closed_ok_nth i _ 0%nat Hc q r Hq Hl).
   Qed.
 
-  Lemma closed_ok_routes_ok i : forall rs k, closed_ok i k rs -> last rs [] = [] ->
-    (k + length rs <= S (sm_of i))%nat -> routes_ok i k rs.
+  Lemma closed_ok_routes_ok i : forall rs k, closed_ok i k rs -> last rs [] = [] -> routes_ok i k rs.
   Proof.
-    intros rs. induction rs as [|r rest IH]; intros k Hc Hlast Hlen; [exact I|]. cbn [routes_ok closed_ok] in *.
+    intros rs. induction rs as [|r rest IH]; intros k Hc Hlast; [exact I|]. cbn [routes_ok closed_ok] in *.
     destruct rest as [|r' rest].
     - cbn [last] in Hlast. subst r. split; [apply route_ok_nil | exact I].
-    - destruct Hc as [(q & Hq & Hf) Hrest]. cbn [length] in Hlen. split.
-      + assert (Hk : (k < sm_of i)%nat) by lia. unfold tidx in Hq. destruct fx.
-        * destruct (Nat.ltb 0 (sm_of i)); [|discriminate]. injection Hq as <-. replace (Nat.min k (sm_of i - 1)) with k in Hf by lia.
-          split; [intros _; exact Hk | exact Hf].
-        * destruct (Nat.ltb k (sm_of i)); [|discriminate]. injection Hq as <-. split; [intros _; exact Hk | exact Hf].
-      + apply IH; [exact Hrest | exact Hlast | cbn [length]; lia].
+    - destruct Hc as [Hs Hrest]. split; [apply seg_ok_route_ok; exact Hs | apply IH; [exact Hrest | exact Hlast]].
   Qed.
 
-  (* accepted, ending with a depot visit, at most m depot visits => feasible *)
+  (* accepted and ending with a depot visit (padding included) => feasible *)
   Theorem svrp_checker_sound_if_closed i acts :
-    svrp_checker fx i acts = true -> last (routes acts) [] = [] -> (occ 0 acts <= sm_of i)%nat -> svrp_feasible i acts.
+    svrp_checker fx i acts = true -> last (routes acts) [] = [] -> svrp_feasible i acts.
   Proof.
-    intros H Hlast Hz. apply svrp_checker_iff in H as (_ & Hocc & Hrng & Hc). split; [exact Hocc|]. split; [exact Hrng|].
-    apply closed_ok_routes_ok; [exact Hc | exact Hlast|]. unfold routes. rewrite routes_aux_length. lia.
+    intros H Hlast. apply svrp_checker_iff in H as (_ & Hocc & Hrng & Hc). split; [exact Hocc|]. split; [exact Hrng|].
+    apply closed_ok_routes_ok; [exact Hc | exact Hlast].
   Qed.
 
   Corollary svrp_checker_rejects_missing i acts j :
@@ -690,11 +703,19 @@ Section Proofs.
   (* unmet skill in a route closed by a depot visit *)
   Corollary svrp_checker_rejects_unmet_skill i acts q r j :
     nth_error (routes acts) q = Some r -> (S q < length (routes acts))%nat -> In j r ->
-    (forall t, tidx fx (sm_of i) q = Some t -> tskill i t < sskill i j) ->
+    tskill i q < sskill i j ->
     svrp_checker fx i acts = false.
   Proof.
     intros Hq Hl Hj Hs. apply not_true_iff_false. intros Hc. destruct (svrp_checker_sound_closed i acts Hc) as (_ & _ & H).
-    destruct (H q r Hq Hl) as (t & Ht & Hf). rewrite Forall_forall in Hf. specialize (Hf j Hj). specialize (Hs t Ht). lia.
+    destruct (H q r Hq Hl) as [_ Hf]. rewrite Forall_forall in Hf. specialize (Hf j Hj). lia.
+  Qed.
+  (* customers in a route closed by a depot visit that starts after m or more depot visits: no technician is left *)
+  Corollary svrp_checker_rejects_route_after_last_technician i acts q r :
+    nth_error (routes acts) q = Some r -> (S q < length (routes acts))%nat -> r <> [] -> (sm_of i <= q)%nat ->
+    svrp_checker fx i acts = false.
+  Proof.
+    intros Hq Hl Hr Hm. apply not_true_iff_false. intros Hc. destruct (svrp_checker_sound_closed i acts Hc) as (_ & _ & H).
+    destruct (H q r Hq Hl) as [Hk _]. specialize (Hk Hr). lia.
   Qed.
 
   Corollary svrp_checker_accepts_mask_made i acts :
